@@ -506,14 +506,19 @@ pub fn run(args: &Args) {
 
     // ---- which cases also go to the Coq model ---------------------------------------------------
     let coq_budget: usize = if args.thorough { 6000 } else { 1300 };
-    let modelled_total: usize = srcs.iter().filter(|s| s.parser().map(|p| ps[p].model != 0).unwrap_or(false)).map(|s| s.len()).sum();
-    let stride_all = (modelled_total / coq_budget.max(1)).max(1);
+    // budget split: damaged valid encodings 70 %, enumerated 15 %, random 15 %
+    let kind_of = |s: &Src| -> usize { let b = match s { Src::Sub { inner, .. } => &**inner, x => x }; match b { Src::Mut { .. } => 0, Src::Enum { .. } => 1, Src::Rand { .. } => 2, _ => 3 } };
+    let modelled = |s: &Src| s.parser().map(|p| ps[p].model != 0).unwrap_or(false);
+    let mut kind_total = [0usize; 4];
+    for s in srcs.iter().filter(|s| modelled(s)) { kind_total[kind_of(s)] += s.len(); }
+    let share = [70usize, 15, 15, 0];
     let strides: Vec<usize> = srcs.iter().map(|s| match s {
         Src::Explicit { cases } => if cases.iter().any(|c| ps[c.0].model != 0) { 1 } else { 0 },
-        _ => if ps[s.parser().unwrap()].model != 0 {
-            // prime-ish stride so that every mutation kind is sampled
-            let st = stride_all | 1;
-            if s.len() < 40 { 1.max(st / 8) } else { st }
+        _ => if modelled(s) {
+            let k = kind_of(s);
+            let st = (kind_total[k] * 100 / (coq_budget * share[k]).max(1)).max(1);
+            // odd stride: walks through every mutation kind
+            if s.len() <= 2 { 1 } else { st | 1 }
         } else { 0 },
     }).collect();
 
@@ -569,7 +574,7 @@ pub fn run(args: &Args) {
         let mut cj = case_json(name, arg, &bytes, origin);
         cj["observed"] = json!(format!("{}: {}", f.kind, f.msg));
         sum.fail(name, class, cj, &format!("{} returned neither a value nor an error: {} ({}) on a {} input of {} bytes, arg {}", name, f.kind, f.msg, origin, bytes.len(), arg));
-        if ps[p].model != 0 && bytes.len() <= 300 && shards.len() < coq_budget + 200 {
+        if ps[p].model != 0 && bytes.len() <= 300 && shards.len() < 2 * coq_budget {
             let term = format!("({}, {}, {}, 2, []%Z)", ps[p].model, arg, coq_bytes(&bytes));
             let mut cj2 = case_json(name, arg, &bytes, origin);
             cj2["impl_obs"] = json!(format!("crash: {}", f.kind));
@@ -580,7 +585,7 @@ pub fn run(args: &Args) {
     for o in &res.obs {
         if failed.contains(&(o.src, o.i)) { continue; }
         let (p, arg, bytes, origin) = srcs[o.src].get(o.i);
-        if ps[p].model == 0 || bytes.len() > 300 || shards.len() >= coq_budget + 200 { continue; }
+        if ps[p].model == 0 || bytes.len() > 300 || shards.len() >= 2 * coq_budget { continue; }
         let term = format!("({}, {}, {}, {}, {})", ps[p].model, arg, coq_bytes(&bytes), o.code, coq_z_list(o.vals.iter().cloned()));
         let mut cj = case_json(ps[p].name, arg, &bytes, origin);
         cj["impl_obs"] = json!({"code": o.code, "vals": o.vals.iter().map(|x| x.to_string()).collect::<Vec<_>>()});
